@@ -86,7 +86,7 @@ func SearchSessionC03(t *tape.Tape) *core.RunResult {
 		cur := gs.g.Pos()
 		cfg := drawCfg(t, &cur)
 		res.Tracef("search %s on %q", cfg, gs.g.FEN())
-		if !checkC03(res, gs, cfg, i+1) {
+		if !checkC03(t, res, gs, cfg, i+1) {
 			break
 		}
 		judged++
@@ -111,7 +111,7 @@ func SearchSessionC03(t *tape.Tape) *core.RunResult {
 	return res
 }
 
-func checkC03(res *core.RunResult, gs *gameSetup, cfg searchCfg, step int) bool {
+func checkC03(t *tape.Tape, res *core.RunResult, gs *gameSetup, cfg searchCfg, step int) bool {
 	ctx := context.Background()
 	ab := cfg.realSearch(nil)
 	before := snap(gs.b)
@@ -125,6 +125,12 @@ func checkC03(res *core.RunResult, gs *gameSetup, cfg searchCfg, step int) bool 
 		res.Inconclusive["model-over-budget"]++
 		res.Probe(fmt.Sprintf("over d=%d sel=%d q=%v n=%d", cfg.depth, cfg.selective, cfg.quiesce, pieceCount(&cur)))
 		return true
+	}
+	if ms.QStalemates > 0 {
+		res.Probe("stalemate-inside-quiescence")
+	}
+	if ms.QMates > 0 {
+		res.Probe("mate-inside-quiescence")
 	}
 	cc := newCountingCtx(ctx, 40*ms.Nodes+20000)
 	nodes, score, pv, err := ab.Search(cc, &search.Context{TT: search.NoTranspositionTable{}}, gs.b, cfg.depth)
@@ -207,6 +213,49 @@ func checkC03(res *core.RunResult, gs *gameSetup, cfg searchCfg, step int) bool 
 		}
 		if !found {
 			res.Violate("C03", "pv-first-move-not-best", step, "Search(%s) on %q: PV starts with %s worth %s, the value is %s", cfg, gs.g.FEN(), first.UCI(), valText(per[first]), valText(val))
+			return false
+		}
+	}
+	// In one judged search out of three, every explored root move is searched on its own, one ply less deep:
+	// a wrong value two plies down rarely moves the root value (a maximum hides all but the best line), but
+	// it does move the value of the move it belongs to.
+	if !rootDrawn && cfg.depth >= 1 && t.Chance(1, 3) {
+		for _, m := range legal {
+			want, explored := per[m]
+			if !explored {
+				continue
+			}
+			g2 := gs.g.Clone()
+			g2.Moves = append(g2.Moves, m)
+			if g2.EverDrawn() {
+				continue // as a root the draw would be cleared, as an inner node it is worth zero: not comparable
+			}
+			rm, ok := bridge.FindRepoMove(gs.b.Position(), gs.b.Turn(), m)
+			if !ok || !gs.b.PushMove(rm) {
+				continue
+			}
+			cc2 := newCountingCtx(ctx, 40*ms.Nodes+20000)
+			_, sc, _, err := ab.Search(cc2, &search.Context{TT: search.NoTranspositionTable{}}, gs.b, cfg.depth-1)
+			gs.b.PopMove()
+			if err != nil {
+				continue
+			}
+			got, ok := scoreToVal(sc)
+			if !ok {
+				continue
+			}
+			if got = got.NegInc(); got.Key() != want.Key() {
+				kind := "value-mismatch"
+				if got.Class != 0 || want.Class != 0 {
+					kind = "mate-value-mismatch"
+				}
+				res.Violate("C03", kind, step, "Search(%s, one ply less) after %s on %q (history %s) returned %v, which makes the move worth %s; exhaustive minimax over the same moves and leaves says %s", cfg, m.UCI(), gs.g.FEN(), movesText(gs.g.Moves), sc, valText(got), valText(want))
+				return false
+			}
+			res.Probe("root-move-searched-on-its-own")
+		}
+		if d := before.diff(snap(gs.b)); d != "" && len(legal) > 0 {
+			res.Violate("C03", "board-not-restored", step, "after searching the root moves of %q one by one the board differs in %s", gs.g.FEN(), d)
 			return false
 		}
 	}
